@@ -199,6 +199,11 @@ impl Ctx {
         !self.violations.lock().unwrap().is_empty()
     }
 
+    /// is this violation one of the recorded known findings?
+    pub fn is_known(&self, v: &Violation) -> bool {
+        self.match_known(v).is_some()
+    }
+
     fn match_known(&self, v: &Violation) -> Option<&KnownFinding> {
         self.known.iter().find(|k| {
             k.status == "known"
